@@ -41,6 +41,16 @@ def depth1(cs, chars=("'a'", "'\\xff'")):
             for op in CMP:
                 out.append(('bool', f'({a} {op} {b})'))
     for a in nums:
+        for b in nums:
+            for op in ('/', '%', '<', '==', '>='):
+                t = 'int' if op in '/%' else 'bool'
+                out.append((t, f'((-{a}) {op} {b})'))
+                out.append((t, f'({b} {op} (-{a}))'))
+        out.append(('bool', f'((-{a}) is bool)'))
+        out.append(('int', f'((-{a}) is byte) is int'))
+        out.append(('int', f'(-(-{a}))'))
+        out.append(('bool', f'((-(-{a})) < 0)'))
+    for a in nums:
         out.append(('int', f'(-{a})'))
         out.append(('byte', f'({a} is byte)'))
         out.append(('bool', f'({a} is bool)'))
@@ -91,6 +101,28 @@ def chains(W):
             out.append(('int', f'(({a} {ops[0]} {b}) {ops[1]} ({c} {ops[2]} {d}))'))
             out.append(('bool', f'(((({a} {ops[0]} {b}) {ops[1]} {c}) is byte) < ({d} {ops[2]} 1))'))
     return out
+
+
+EFFECT_PRE = """
+int g = 0;
+int f(int x) { g += 1; write('f'); write(x); write(' '); return x + g; }
+byte q(int x) { write('q'); return (x + 65) is byte; }
+"""
+# expressions part of which the compiler could evaluate in advance although another part has effects or can fault
+EFFECT_EXPRS = [
+    '[f(1), 2].length', '[f(1) + 0, 2].length', '[f(1) - f(2), 3, 4].length', "[q(1), 'b'].length", "[q(1) is int, 2].length",
+    '[1, 7 / z].length', '[tab[ten]].length', '[1, 2, 3].length', '"abc".length', '[f(1), 2][1]', '[f(1), f(2)][0]', '[1, 7 / z][0]',
+    '([f(1)] is bool) is int', '([] is bool) is int', '("" is bool) is int', '(["x"][0] is bool) is int', '[1, 2, 3][3]', '[1, 2, 3][ten - 8]',
+    '"abc"[1] is int', '"abc"[ten] is int', '(f(1) * 0)', '(0 * f(1))', '(f(1) - f(1))', '((f(1) > 0) or true) is int', '((f(1) > 0) and false) is int',
+    '(true or (f(1) > 0)) is int', '(false and (f(1) > 0)) is int', '(0 / f(1))', '(f(1) % 1)', '(f(3) / 1)', '(1 / (f(1) - f(1) + 1 - 1 + z))',
+    '(z * (7 / z))', '(0 * (7 / z))', '((7 / z) * 0)', '(f(1) ?? f(1))', '(5 ?? 5)', '(f(1) ?? 2)', '(2 ?? f(0))',
+    '[f(1), 2].length + [f(2)].length', '(not ([f(1)] is bool)) is int',
+]
+
+
+def effect_program(exprs):
+    body = ' '.join(f"write('<'); write({e}); write('>');" for e in exprs)
+    return EFFECT_PRE + f'empty @is_you(int z, int ten) {{ int[] tab = [1, 2, 3]; {body} writeln(g); }}\n'
 
 
 def show(t, e):
@@ -144,6 +176,9 @@ def items(tier):
     out = []
     i = 0
     Ws = [2, 3, 4]
+    for k in range(len(EFFECT_EXPRS)):
+        out.append((i, 'fx', 2, k, k + 1))
+        i += 1
     for W in Ws:
         d1 = depth1(consts(W))
         for lo in range(0, len(d1), 400):
@@ -197,6 +232,13 @@ def run_lines(src, W):
 def run_item(item, tier):
     st = Stats()
     W = item[2]
+    if item[1] == 'fx':
+        from ..cases import run_program
+        e = EFFECT_EXPRS[item[3]]
+        run_program(st, effect_program([e]), [['0', '10'], ['1', '10']], [2, 4], f'partially constant expression {e}')
+        st.sample({'partially_constant_expression': e})
+        st.add('twins_equal', 0)
+        return st
     es = exprs_for(item)[item[3]:item[4]]
     ok = []
     for t, e in es:
@@ -376,6 +418,8 @@ def coverage(total, tier):
         'depth2': ('op(op(c,c),c) and op(c,op(c,c)) over 9 constants incl. all word-boundary ones, all arithmetic and comparison operators, casts and '
                    'derived conditions') if tier == 'thorough' else 'op(op(c,c),c) over 6 boundary constants and + * / == <',
         'chains': 'depth 3 left chains, balanced trees and cast/comparison mixes over 4 constants x 4 operators' + ('' if tier == 'thorough' else ' (every 9th)'),
+        'effects': f'{len(EFFECT_EXPRS)} expressions that are partly constant and partly effectful or faulting (array-literal length/index/truthiness with call or '
+                   'faulting elements, x*0, short-circuit with constants, ?? of equal constants), compared with the reference interpreter on inputs z in 0,1',
         'presentations': 'literal in place, const local, const global, non-const global initialiser (rotating); variable form: every literal in a non-const local',
         'word_sizes': '2,3,4',
     })
@@ -393,6 +437,9 @@ def vacuity(total, tier):
 
 
 def replay(case):
+    if case.get('kind') == 'conformance':
+        from ..cases import replay_conformance
+        return replay_conformance(case)
     st = Stats()
     t, e, W = case['t'], case['e'], case['W']
     if case.get('fault'):
